@@ -304,6 +304,20 @@ CHECKS['C11'] = {
     ],
 }
 
+CHECKS['C19'] = {
+    'level': 'exploration',
+    'technique': 'schedule-exploring property testing: the real ThreadPool (its pool threads are ordinary muscle Threads that register with the scheduler when the pool demand-starts them) runs on the harness-owned scheduler; generated submission / unregister / re-register scripts from several threads; handler activation log as the history; deadlock detection',
+    'level_text': ('Generated (script, schedule) search: pool sizes 1-3, 1-4 clients, 1-3 submitting threads, handlers that yield inside, unregistration from non-pool threads with Messages still outstanding, re-registration, pool destruction. '
+                   'Oracle over the activation log: per client exactly-once and in submission order, never two activations of one client at once, never more activations than pool threads, unregister returns only when everything submitted has been handled and no handler is running, every submitted Message is handled by the end, destruction returns, no deadlock. Held = no explored schedule violated these.'),
+    'level_note': SC_NOTE,
+    'rule': ('Byte-decoded cases: configuration + per-submitter scripts + schedule. Non-trivial: an unregistration was issued while Messages of that client were still outstanding, or >= 2 handlers ran in parallel with at least one preemption. Distinct: hash of configuration, scripts and choices.'),
+    'assumptions': ['clients are unregistered before they and the pool are destroyed (documented requirement)'],
+    'targets': [
+        {'name': 'c19_threadpool', 'src': ['harness/C19_threadpool.cpp'], 'quick_n': 100000, 'thorough_n': 2000000, 'maxlen': 400, 'min_nontrivial': 20000, 'budget': 120,
+         'class_floors': {'case_handlers_ran_in_parallel': 5000, 'case_more_clients_than_pool_threads': 15000, 'case_unregister_with_messages_outstanding': 10000}},
+    ],
+}
+
 
 def setup():
     t0 = time.time()
